@@ -23,3 +23,5 @@ one() {
 export -f one
 printf '%s\n' "$@" | xargs -P ${ROP_P:-4} -I{} bash -c 'one {}'
 rm -f $VERIF_BIN
+# every scratch copy is built once (go build ./...): over hundreds of patches the shared build cache grows by tens of GB
+[ "${ROP_KEEP_CACHE:-0}" = 1 ] || go clean -cache
